@@ -28,60 +28,81 @@ ASSUMPTIONS = [
 
 
 def rule_r1(F):
+    """Decided by evaluating resolve_name (vf/sx: every path, lookup helpers followed) for both values of `recurse`: which tables are
+    consulted, in which order, and where the function can return - however the loop and the lookups are written."""
+    from .. import sx
     r = RuleResult("C13.R1", "lookup order in resolve_name: declarations, then imports (only when recursing), then parent", floor=3)
     b = F.body("typechecker::scope::ScopeGraph::resolve_name")
-    if b is None:
+    if b is None or not b.hir:
         r.missing("ScopeGraph::resolve_name")
         return r
-    defs = mir.Defs(b)
-    dom = mir.dominators(b)
-    pk = {p.get("name"): "arg%d" % (i + 1) for i, p in enumerate(b.hir["params"])}
-    D = I = P = None
-    for bi, t in mir.calls(b):
-        n = hir.last(mir.callee_def(t))
-        if n == "get" and t["args"] and mir.is_place_op(t["args"][0]):
-            k = mir.origin_key(b, defs, t["args"][0][1])
-            if "declarations" in k and D is None:
-                D = bi
-            if "imports" in k and I is None:
-                I = bi
-        if hir.last(mir.callee(t)) == "parent" and "ScopeGraph" in mir.callee(t):
-            P = bi
-    r.inst("events", {"declarations_get": D, "imports_get": I, "parent_step": P})
-    if D is None or I is None or P is None:
-        r.bad(b.path, "events", relfile(b.file), b.line, "resolve_name no longer consults declarations, imports and parent (found %s/%s/%s)" % (D, I, P))
+    rpos = [i_ for i_, p_ in enumerate(b.hir["params"]) if str(p_.get("ty")) == "bool"]
+    if len(rpos) != 1:
+        r.missing("the `recurse` flag (single bool parameter) of resolve_name")
         return r
-    if not (D in dom[I] and I in dom[P]):
-        r.bad(b.path, "order", relfile(b.file), b.line, "lookup order must be declarations < imports < parent on every iteration")
-    # the recurse test lies between D and I
-    rk = pk.get("recurse")
-    sw = None
-    for bi, blk in enumerate(b.blocks):
-        t = blk["term"]
-        if t["k"] == "switch" and mir.is_place_op(t["o"]):
-            k = mir.origin_key(b, defs, t["o"][1])
-            if k.startswith(rk or "?"):
-                sw = bi
-    r.inst("recurse test", {"switch_block": sw})
-    if sw is None or not (D in dom[sw] and sw in dom[I]):
-        r.bad(b.path, "recurse test", relfile(b.file), b.line, "imports must only be consulted when `recurse` is set, after the declarations lookup")
-    else:
-        t = b.blocks[sw]["term"]
-        false_targets = [x[1] for x in t["targets"] if x[0] == 0]
-        # on recurse == false neither imports nor parent may be reached
-        for ft in false_targets:
-            reach = mir.reachable_from(b, ft)
-            if I in reach or P in reach:
-                r.bad(b.path, "non-recursive lookup", relfile(b.file), b.line, "with recurse == false the lookup still reaches imports or the parent scope: later path segments would be found outside the item before them")
-    # a hit in declarations returns without looking at imports
-    gs = [g for g in mir.gates(b, defs) if any(c[0] == D for c in g["chain"])]
-    ok = False
-    for g in gs:
-        good = set()
-        for x in g["good"]:
-            good |= mir.reachable_from(b, x)
-        if I not in good and P not in good:
-            ok = True
+    parents = {p_ for p_ in F.paths() if p_.startswith("typechecker::scope::ScopeGraph::") and hir.last(p_) == "parent"}
+
+    def looks_up(path, field, depth=0):
+        hb = F.body(path) if path and F.has(path) else None
+        if hb is None or not hb.mir or depth > 2 or not path.startswith("typechecker::scope::"):
+            return False
+        hdefs = mir.Defs(hb)
+        for _, ht in mir.calls(hb):
+            if hir.last(mir.callee_def(ht)) == "get" and ht["args"] and mir.is_place_op(ht["args"][0]) and field in mir.origin_key(hb, hdefs, ht["args"][0][1]):
+                return True
+            c_ = mir.callee(ht) or ""
+            if c_ != path and hir.last(c_) not in ("resolve_name", "parent") and looks_up(c_, field, depth + 1):
+                return True
+        return False
+
+    helper_kind = {}
+    for p_ in F.paths():
+        if p_.startswith("typechecker::scope::ScopeGraph::") and "{closure" not in p_ and p_ != b.path and p_ not in parents:
+            if looks_up(p_, "imports"):
+                helper_kind[hir.last(p_)] = "I"
+            elif looks_up(p_, "declarations"):
+                helper_kind[hir.last(p_)] = "D"
+
+    def kinds(evs):
+        out = []
+        pending_import = False
+        for e in evs:
+            if e[0] != "mcall":
+                continue
+            if e[1] == "get" and sx.mentions(e[2], "imports") or (e[1] == "get" and ".imports" in str(e[2])):
+                out.append("I")
+                pending_import = True
+            elif e[1] == "get" and ("declarations" in str(e[2])):
+                if pending_import:
+                    pending_import = False      # the declaration an import refers to: part of the import lookup
+                else:
+                    out.append("D")
+            elif e[1] == "parent":
+                out.append("P")
+                pending_import = False
+            elif e[1] in helper_kind:
+                out.append(helper_kind[e[1]])
+                pending_import = False
+        return out
+
+    try:
+        ex = sx.Exec(F, opaque=parents)
+        flat = [kinds(evs) for _, evs in ex.paths(b.hir, {rpos[0]: False})]
+        deep = [kinds(evs) for _, evs in ex.paths(b.hir, {rpos[0]: True})]
+    except (sx.TooManyPaths, sx.Unknown) as e_:
+        r.bad(b.path, "events", relfile(b.file), b.line, "cannot evaluate resolve_name: %s" % e_)
+        return r
+    r.inst("events", {"recurse=false": sorted({" ".join(k) for k in flat}), "recurse=true": sorted({" ".join(k) for k in deep})})
+    if not flat or not deep or not all("D" in k for k in flat + deep) or not any("I" in k for k in deep) or not any("P" in k for k in deep):
+        r.bad(b.path, "events", relfile(b.file), b.line, "resolve_name no longer consults declarations (always), imports and parent (when recursing): %s / %s" % (sorted({" ".join(k) for k in flat}), sorted({" ".join(k) for k in deep})))
+        return r
+    bad_order = [k for k in deep if not all(a <= c for a, c in zip([("D", "I", "P").index(x) for x in k], [("D", "I", "P").index(x) for x in k][1:])) or k[0] != "D"]
+    if bad_order:
+        r.bad(b.path, "order", relfile(b.file), b.line, "lookup order must be declarations < imports < parent on every iteration (found %s)" % " ".join(bad_order[0]))
+    r.inst("recurse test", {"paths_without_recursion": len(flat)})
+    if any("I" in k or "P" in k for k in flat):
+        r.bad(b.path, "non-recursive lookup", relfile(b.file), b.line, "with recurse == false the lookup still reaches imports or the parent scope: later path segments would be found outside the item before them")
+    ok = any(k == ["D"] for k in deep)
     r.inst("declaration hit returns", {"ok": ok})
     if not ok:
         r.bad(b.path, "shadowing", relfile(b.file), b.line, "a declaration found in the scope does not return immediately: an import or an outer declaration could take precedence")
@@ -691,8 +712,7 @@ def rule_r11(F):
             for a in t["args"][:2]:
                 ks = set()
                 if mir.is_place_op(a):
-                    for cb in mir.back_calls(b, defs, a[1][0]):
-                        n = hir.last(mir.callee_def(b.blocks[cb]["term"]) or "")
+                    for n in mir.back_call_names(F, b, defs, a[1][0]):
                         if n in FIRST_LIKE:
                             ks.add("first")
                         if n in LAST_LIKE:
